@@ -47,6 +47,7 @@ type caseA struct {
 	TLS        bool `json:"tls"`         // the proxied endpoint speaks TLS (self-signed), proxy started with --ssl-skip-verify
 	NoChecksum bool `json:"no_checksum"` // proxy started with --disable-checksum
 	Owner      bool `json:"owner"`       // the bucket is created by a non-root account (carol) instead of root
+	ACLs       bool `json:"acls"`        // the bucket is created with ACLs enabled (object ownership BucketOwnerPreferred)
 	Ops        []op `json:"ops"`
 }
 
@@ -299,7 +300,8 @@ func same(a, b answer) bool {
 var metas = [][]s3c.KV{nil, {{K: "x-amz-meta-color", V: "blue"}}, {{K: "x-amz-meta-a", V: "1"}, {K: "x-amz-meta-b-c", V: "x y"}, {K: "Content-Type", V: "text/plain"}},
 	{{K: "Content-Disposition", V: "attachment"}, {K: "Cache-Control", V: "no-cache"}, {K: "Content-Language", V: "en"}},
 	{{K: "Content-Encoding", V: "gzip"}, {K: "Expires", V: "Mon, 02 Jan 2034 15:04:05 GMT"}, {K: "x-amz-tagging", V: "t1=v%201&t2=v2"}},
-	{{K: "x-amz-checksum-crc32", V: "@crc32"}}, {{K: "x-amz-checksum-sha256", V: "@sha256"}, {K: "x-amz-meta-k", V: "v"}}}
+	{{K: "x-amz-checksum-crc32", V: "@crc32"}}, {{K: "x-amz-checksum-sha256", V: "@sha256"}, {K: "x-amz-meta-k", V: "v"}},
+	{{K: "Content-Type", V: "application/octet-stream"}}, {{K: "Content-Type", V: "binary/octet-stream"}, {K: "x-amz-meta-empty", V: ""}}}
 
 func withChecksums(m []s3c.KV, data []byte) []s3c.KV {
 	var out []s3c.KV
@@ -361,7 +363,11 @@ func step(s *side, bkt string, o op) ([]*s3c.Resp, error) {
 	}
 	switch o.Kind {
 	case "create":
-		return one(cl.Call("PUT", "/"+bkt, nil, nil, nil))
+		var h []s3c.KV
+		if o.Meta == 1 {
+			h = []s3c.KV{{K: "x-amz-object-ownership", V: "BucketOwnerPreferred"}}
+		}
+		return one(cl.Call("PUT", "/"+bkt, nil, h, nil))
 	case "put":
 		data := s3c.GenBytes(o.Seed, o.Size)
 		return one(cl.Call("PUT", path, nil, withChecksums(metas[o.Meta%len(metas)], data), data))
@@ -521,7 +527,8 @@ func step(s *side, bkt string, o op) ([]*s3c.Resp, error) {
 	case "ownget":
 		return one(cl.Call("GET", "/"+bkt, s3c.Q("ownershipControls", ""), nil, nil))
 	case "aclput":
-		h := [][]s3c.KV{{{K: "x-amz-acl", V: "public-read"}}, {{K: "x-amz-acl", V: "private"}}, {{K: "x-amz-grant-read", V: "id=" + users[0].Access}}, {{K: "x-amz-grant-full-control", V: "id=" + users[0].Access}, {K: "x-amz-grant-read", V: "id=" + users[1].Access}}}
+		h := [][]s3c.KV{{{K: "x-amz-acl", V: "public-read"}}, {{K: "x-amz-acl", V: "private"}}, {{K: "x-amz-grant-read", V: "id=" + users[0].Access}}, {{K: "x-amz-grant-full-control", V: "id=" + users[0].Access}, {K: "x-amz-grant-read", V: "id=" + users[1].Access}},
+			{{K: "x-amz-acl", V: "public-read-write"}}, {{K: "x-amz-grant-write", V: "id=" + users[0].Access}, {K: "x-amz-grant-read-acp", V: "id=" + users[1].Access}, {K: "x-amz-grant-write-acp", V: "id=" + users[1].Access}}}
 		return one(cl.Call("PUT", "/"+bkt, s3c.Q("acl", ""), h[o.Meta%len(h)], nil))
 	case "aclget":
 		return one(cl.Call("GET", "/"+bkt, s3c.Q("acl", ""), nil, nil))
@@ -715,6 +722,12 @@ func execA(c caseA) (st stats, err error) {
 			ev.Class("upload-refusal-race-unresolved-large-body")
 			bad = false
 		}
+		if bad && !strict && kf.Open(aclTagFinding) && o.Kind == "aclput" && len(ans[0]) == 1 && len(ans[1]) == 1 &&
+			ans[0][0].Status == 200 && ans[1][0].Status == 400 && ans[1][0].Code == "InvalidTag" {
+			// known finding, exactly this shape; the two sides now hold different ACLs: nothing further to compare
+			ev.Known(aclTagFinding)
+			return errDiverged
+		}
 		if bad && !strict && kf.Open(ownerFinding) && (o.Kind == "list" || o.Kind == "list1" || o.Kind == "listversions") {
 			// known finding: narrowed to exactly the Owner of listed objects
 			keep := ans
@@ -743,7 +756,11 @@ func execA(c caseA) (st stats, err error) {
 	if c.Owner {
 		creator = 2
 	}
-	if err := run("CreateBucket", op{Kind: "create", Who: creator}); err != nil {
+	mk := op{Kind: "create", Who: creator}
+	if c.ACLs {
+		mk.Meta = 1
+	}
+	if err := run("CreateBucket", mk); err != nil {
 		return st, err
 	}
 	for i, o := range c.Ops {
@@ -766,6 +783,9 @@ func execA(c caseA) (st stats, err error) {
 			st.Multi++
 		}
 		if err := run(fmt.Sprintf("step %d (%s %q as %d)", i, o.Kind, keyNames[o.Key%len(keyNames)], o.Who), o); err != nil {
+			if err == errDiverged {
+				return st, nil
+			}
 			return st, err
 		}
 	}
@@ -780,6 +800,9 @@ func execA(c caseA) (st stats, err error) {
 
 const btagFinding = "C18-bucket-tagging-not-implemented"
 const ownerFinding = "C18-listed-object-owner-is-backend-account"
+const aclTagFinding = "C18-acl-does-not-fit-the-reserved-tag"
+
+var errDiverged = fmt.Errorf("DIVERGED")
 
 var strict bool // replay of an open finding: no narrowing
 
@@ -798,7 +821,7 @@ func opsGen(thorough bool) *rapid.Generator[[]op] {
 			o.Src = rapid.IntRange(0, len(keyNames)-1).Draw(t, "src")
 			o.Seed = rapid.Uint64Range(1, 1<<20).Draw(t, "seed")
 			o.Size = rapid.SampledFrom([]int{0, 1, 100, 4096, 65537, 1 << 20}).Draw(t, "size")
-			o.Meta = rapid.IntRange(0, 6).Draw(t, "meta")
+			o.Meta = rapid.IntRange(0, 8).Draw(t, "meta")
 			o.Who = rapid.SampledFrom([]int{0, 0, 0, 0, 1, 2}).Draw(t, "who")
 			if strings.HasPrefix(o.Kind, "btag") && kf.Open(btagFinding) {
 				ev.Exclude("known finding " + btagFinding + ": bucket tagging operations")
@@ -862,6 +885,7 @@ func TestC18A(t *testing.T) {
 		c.TLS = rapid.Bool().Draw(t, "tls")
 		c.NoChecksum = rapid.Bool().Draw(t, "no_checksum")
 		c.Owner = rapid.Bool().Draw(t, "owner")
+		c.ACLs = rapid.Bool().Draw(t, "acls")
 		c.Ops = opsGen(thorough).Draw(t, "ops")
 		ev.Trace("C18A", c)
 		st, err := execA(c)
@@ -881,7 +905,7 @@ func TestC18A(t *testing.T) {
 		if st.Restart > 0 {
 			cls = append(cls, "proxy-restarted")
 		}
-		ev.Case(fmt.Sprintf("%v|%v|%v|%+v", c.TLS, c.NoChecksum, c.Owner, c.Ops), st.Multi > 0 || st.Paged > 0 || st.Meta > 0 || st.User > 0, cls...)
+		ev.Case(fmt.Sprintf("%v|%v|%v|%v|%+v", c.TLS, c.NoChecksum, c.Owner, c.ACLs, c.Ops), st.Multi > 0 || st.Paged > 0 || st.Meta > 0 || st.User > 0, cls...)
 		ev.Sample(cls[0], 1, c)
 		if err != nil {
 			if strings.HasPrefix(err.Error(), "SETUP") {
